@@ -277,6 +277,33 @@ _amend("C09", "text", "(R09.1, R09.3-R09.12, DESIGN.md §4 C09;", "(R09.1, R09.3
 _amend("C10", "text", "(R10.1-R10.10,", "(R10.1-R10.11,")
 _amend("C10", "text", "Decides ten structural clauses", "Decides eleven structural clauses")
 
+# ninth pass
+_amend("C01", "text", "Decides twenty-four structural necessary conditions of JS behaviour preservation (R01.1-R01.24,", "Decides twenty-five structural necessary conditions of JS behaviour preservation (R01.1-R01.25,")
+_amend("C01", "text", "Does not decide the correctness of the algebraic rewrites.", "optimizeCondExpr leaves an operand of a conditional out only behind a licence for that operand (isEqualExpr on it, a literal flag, a constant condition). Does not decide the correctness of the algebraic rewrites.")
+_amend("C03", "text", "Decides thirteen local clauses (R03.1-R03.13 incl. R03.5c-e, DESIGN.md §4 C03):", "Decides sixteen local clauses (R03.1-R03.16 incl. R03.5c-e, DESIGN.md §4 C03):")
+_amend("C03", "text", "The trait tables are decided under C17.", "Table-section end tags are omitted only in front of a tag that closes the section, option end tags and the text around options only inside select, the script/template veto looks past comments, a colgroup start tag stays while a colgroup is open, and code in style/on* attributes is decoded before and re-escaped after its minifier (= R11.9). The trait tables are decided under C17.")
+_amend("C04", "text", "(R04.1-R04.11, DESIGN.md §4 C04):", "(R04.1-R04.17, DESIGN.md §4 C04; R04.17 reports a known finding: a quoted font family that spells a keyword loses its quotes, pinned by the suite):")
+_amend("C04", "text", "Decides eleven structural clauses only", "Decides seventeen structural clauses only")
+_amend("C04", "text", "Equivalence of numbers, colours, shorthands,", "Further: zero-unit and colour tables (= R17.units, R17.colors); a hex colour is compacted only when every digit pair is equal; hsl() is converted only for percentage saturation and lightness; the URL of an @import is taken over whole. Equivalence of numbers, colours, shorthands,")
+_amend("C05", "text", "Decides (R05.1-R05.16, DESIGN.md §4 C05):", "Decides (R05.1-R05.21, DESIGN.md §4 C05):")
+_amend("C05", "text", "Known findings: xml:space", "Hex colours are compacted only with all pairs equal and a colour value changes only by a table entry or that compaction; the text of a style element is not white-space-collapsed; the `>` of `]]>` stays escaped in character data. Known findings: whole attribute values that look like numbers are rewritten as numbers (R05.20); xml:space")
+_amend("C06", "text", "Decides (R06.1-R06.8, DESIGN.md §4 C06):", "Decides (R06.1-R06.9, DESIGN.md §4 C06):")
+_amend("C06", "text", "CDATA byte round trips, `]]>` arising from `]]&gt;` and white space inside PI content are not decided.", "The data of text tokens and the text that replaces a CDATA section pass the escaper that keeps the `>` of `]]>` escaped. CDATA byte round trips and white space inside PI content are not decided.")
+_amend("C08", "text", "Decides ten shape clauses only (R08.1-R08.10,", "Decides eleven shape clauses only (R08.1-R08.11,")
+_amend("C08", "text", "Value equality, rounding in general,", "Every comparison between sums of indices into num and counts relates like with like (same position degree on both sides). Value equality, rounding in general,")
+_amend("C09", "text", "(R09.1, R09.3-R09.14, DESIGN.md §4 C09;", "(R09.1, R09.3-R09.17, DESIGN.md §4 C09;")
+_amend("C09", "text", "Validity of the output of the six minifiers in general,", "Every grammar position printed with a constant level gets at least the level of its ECMA-262 production (33 positions); XML and SVG character data never contains `]]>` (= R06.9, R05.21). Validity of the output of the six minifiers in general,")
+_amend("C10", "text", "(R10.1-R10.11,", "(R10.1-R10.12,")
+_amend("C10", "text", "Decides eleven structural clauses", "Decides twelve structural clauses")
+_amend("C10", "text", "Absence of panics, bounded recursion in general and linear time are NOT decided.", "Every directly recursive function of the non-JS packages is depth-guarded or listed with the reason its depth is bounded. Absence of panics and linear time in general are NOT decided.")
+_amend("C11", "text", "(R11.1-R11.8, DESIGN.md §4 C11;", "(R11.1-R11.10, DESIGN.md §4 C11;")
+_amend("C11", "text", "Re-escaping for the host syntax is not covered.", "Code in an HTML attribute is decoded before and its ampersands escaped after its minifier; SVG style text reaches the CSS minifier without white space collapse. Re-escaping for the host syntax beyond that is not covered.")
+_amend("C18", "text", "(R18.1-R18.6, DESIGN.md §4 C18):", "(R18.1-R18.8, DESIGN.md §4 C18):")
+_amend("C18", "text", "minify.Mediatype (quoted strings with escaped quotes are not recognised by it — observation).", "Of minify.Mediatype two clauses are decided: a quote toggles the in-string state only behind an escape flag (quoted-pair), and every lowercased span is given in input coordinates; its output as a whole is not.")
+_amend("C19", "text", "(R19.1-R19.17,", "(R19.1-R19.22,")
+_amend("C19", "text", "Destination computation over directory trees and sync copying are not decided.", "Outputs are compared with the inputs and with each other as absolute paths and only without --bundle; no successful exit skips the cleanup of the backup; selection and type inference derive the file extension the same way. Destination computation over directory trees and sync copying are not decided.")
+_amend("C20", "text", "(R20.1-R20.10", "(R20.1-R20.11")
+
 NOT_APPLICABLE = {
 }
 
